@@ -108,6 +108,16 @@ def check(prop, tier, props_meta):
     units.sort(key=lambda u: -u.timeout)
     with ThreadPoolExecutor(max_workers=JOBS) as ex:
         results = list(ex.map(core.run_unit, units))
+    # a unit shared between properties contributes to `prop` only the obligations its prop_filter selects
+    for r in results:
+        rx = r.unit.prop_filter.get(prop)
+        if rx:
+            r.obligations = [o for o in r.obligations if re.search(rx, o.pid + " " + o.desc)]
+            r.failed = [o for o in r.failed if re.search(rx, o.pid + " " + o.desc)]
+            if r.status in ("violation", "internal_fail") and not r.failed:
+                r.status = "ok"
+            elif r.status == "violation" and not any(o.klass == "property" for o in r.failed):
+                r.status = "internal_fail"
     # triage
     final = []
     for r in results:
@@ -131,10 +141,12 @@ def check(prop, tier, props_meta):
     enforced = set()
     for r in final:
         enforced.update(r.unit.enforce)
+        if r.unit.stubbed_contracts or r.unit.name.startswith("E2."):
+            enforced.update(r.unit.functions)
     for r in final:
         u = r.unit
         stubs.update(r.stubs_generated)
-        for g in u.replace:
+        for g in u.replace + u.stubbed_contracts:
             if g not in enforced:
                 assumed.add(g)
         ev = {"unit": u.name, "functions_under_contract": u.functions, "kind": u.kind, "status": r.status,
@@ -145,7 +157,7 @@ def check(prop, tier, props_meta):
               "cover_goals": "%d/%d" % (r.covers_sat, r.covers_total),
               "loops": ("loop contracts: " + ", ".join(sorted({t["function"] for t in u.loops}))) if u.loops else "",
               "unwinding": ("complete unwinding %s (%s)" % (u.unwindset, u.unwind_reason)) if u.unwindset else "",
-              "replaced_by_contract": u.replace, "nondet_stubs": r.stubs_generated, "note": u.note}
+              "replaced_by_contract": u.replace + u.stubbed_contracts, "nondet_stubs": r.stubs_generated, "note": u.note}
         if u.kind == "bounded":
             ev["bound"] = u.bound
             bounded_ev.append(ev)
